@@ -86,6 +86,10 @@ CHECKS['C12'] = dict(level='other', engine='gosym', design='4/C12',
    technique='symbolic execution of the visibility decision kernels (go/ssa) over symbolically chosen selector shapes, symbol kinds and scopes',
    text='PARTIAL (kernels): utils.IsExported on every ASCII name up to 3 bytes; checkSelectorExpr (with the real inferExprType) on selectors of depth <= 3 over two struct types with private and exported fields, with symbol kinds (receiver / parameter / variable), reference-ness and shadowing symbolic: a lower-case field is accepted exactly when the base is an identifier resolving to a receiver.',
    note=_GO_NOTE + ' NOT decided: module::symbol export checks, private types in type positions, other syntactic positions (range expressions etc.), multi-module projects.')
+CHECKS['C02'] = dict(level='translation_validation', engine='lirsym/qbe + lirsym/wasm', design='A.8 and 4/C02',
+   technique='SMT-decided back-end agreement: the emitted QBE IL and the emitted .wasm binary of the same function executed symbolically on the same inputs, pairwise path comparison, all parameter values, z3',
+   text='For a generated family of template functions (arithmetic, comparisons, casts incl. directly consumed narrowing casts, unguarded division/remainder, control flow, composites, references, dynamic arrays and strings, struct layout) the freshly built compiler emits native code (QBE IL, pointer size 8) and a .wasm module (pointer size 4). The IL and the decoded wasm function are executed symbolically on the same free 64-bit inputs; for every pair of paths z3 decides that termination class (normal / panic-or-trap), returned value and printed values agree. Counterexamples and one witness per template are replayed on the linked native executable and under node with the shipped runtime.js.',
+   note='Trusted: z3; QBE IL semantics (lirsym/qbe.py) and WebAssembly 1.0 semantics (lirsym/wasm.py), both validated by witness replay on every run; contracts for the C runtime (discharged by C16/C17) and for the imports runtime.js offers (NOT discharged: runtime.js is JavaScript and is only exercised by the node replays). Floating point is not executed. Templates either target rejects, or that import a function runtime.js lacks, are outside the claim and counted. Program shapes outside the generated families are not covered.')
 NA_DEFAULT = 'check not built yet (work in progress, see DESIGN.md section 11)'
 NA = {}
 
@@ -114,7 +118,8 @@ def main():
         'engines': [
             {'name': 'gosym', 'path': 'gosym/', 'serves_properties': ['C03', 'C06', 'C07', 'C10', 'C11', 'C12', 'C13', 'C14', 'C15', 'C18', 'C19', 'C20'], 'kind_free_text': 'symbolic interpreter for go/ssa (Go, x/tools v0.50.0 ssa/interp extended with SMT terms, fork-by-replay, z3 -in)'},
             {'name': 'lirsym/llvm', 'path': 'lirsym/llvm.py', 'serves_properties': ['C16', 'C17'], 'kind_free_text': 'path-wise symbolic executor for clang -O0 LLVM IR of the C runtime (Python, z3 API)'},
-            {'name': 'lirsym/qbe', 'path': 'lirsym/qbe.py', 'serves_properties': ['C01', 'C04', 'C05', 'C08', 'C09', 'C18'], 'kind_free_text': 'path-wise symbolic executor for the QBE IL the compiler emits (Python, z3 API)'},
+            {'name': 'lirsym/wasm', 'path': 'lirsym/wasm.py', 'serves_properties': ['C02'], 'kind_free_text': 'binary decoder and path-wise symbolic stack-machine executor for the .wasm modules the compiler emits (Python, z3 API)'},
+            {'name': 'lirsym/qbe', 'path': 'lirsym/qbe.py', 'serves_properties': ['C01', 'C02', 'C04', 'C05', 'C08', 'C09', 'C18'], 'kind_free_text': 'path-wise symbolic executor for the QBE IL the compiler emits (Python, z3 API)'},
         ],
         'checks': checks,
         'notes': 'Solver-based checking only; see DESIGN.md. Exit codes: 0 held, 1 violation, 2 inconclusive.',
